@@ -218,7 +218,7 @@ def run(tier):
         for nm, dg in (('box 2->3', fb2), ('diagram 2->3', fb2 >> gb2), ('diagram 2->2x3', tensor.Id(Dim(2)) @ v >> fb2.dagger().dagger() @ tensor.Id(Dim(2)) >> tensor.Swap(Dim(3), Dim(2)))):
             ev = dg.eval()
             base = numpy.array(ev.array, dtype=object).reshape(tuple(ev.dom) + tuple(ev.cod))
-            for vs in ([x, y], [y, x], [x, y, z]):
+            for vs in ([x, y], [y, x], [x, y, z], [x, y, x], [z, z, y, x]):
                 want_a = numpy.empty(tuple(ev.dom) + (len(vs),) + tuple(ev.cod), dtype=object)
                 for idx in itertools.product(*[range(n_) for n_ in tuple(ev.dom)]):
                     for k, var in enumerate(vs):
@@ -230,6 +230,18 @@ def run(tier):
                     suite.fact(tag + '.type', (j_.dom, j_.cod) == (ev.dom, Dim(len(vs)) @ ev.cod), functions=['tensor.Tensor.jacobian'])
                     suite.identity(tag, arr(j_), list(want_a.flatten()), extra=(x, y, z), functions=['tensor.Tensor.jacobian', 'tensor.Diagram.jacobian'],
                                    what='the jacobian stacks the gradients in the order of the variables, after the domain axes')
+    # gradients of classical gates that went through dagger first (the gradient is taken of the evaluation, which already
+    # accounts for the dagger)
+    with suite.guard('grad of daggered classical gates', ['quantum.gates.ClassicalGate.grad']):
+        from discopy.quantum.gates import ClassicalGate as _CG
+        cg1 = _CG('g', 1, 1, [x, x ** 2, 3 * y, 1])
+        cg2 = _CG('f', 1, 2, [x, y, x * y, 0, 1, x ** 2, y ** 2, 2])
+        for nm, dg in (('g', cg1), ('g.dagger()', cg1.dagger()), ('f.dagger()', cg2.dagger()), ('f >> f.dagger()', cg2 >> cg2.dagger()),
+                       ('g.dagger().dagger()', cg1.dagger().dagger())):
+            for var in (x, y):
+                suite.identity('ClassicalGate.grad[%s](%s)' % (nm, var), arr(total(dg.grad(var), mixed=True), diff_arr(dg.eval(mixed=True), var)),
+                               diff_arr(dg.eval(mixed=True), var), extra=(x, y), functions=['quantum.gates.ClassicalGate.grad'],
+                               what='the gradient of a (daggered) symbolic classical gate is the derivative of its evaluation')
     # boxes whose data is a numpy array with two or more axes (a matrix of symbols) depend on their symbols
     with suite.guard('grad of boxes with array-shaped data', ['cat.Box.free_symbols', 'tensor.Box.grad']):
         m2 = tensor.Box('m', Dim(2), Dim(2), numpy.array([[x, 1], [y, x ** 2]], dtype=object))
